@@ -218,7 +218,8 @@ Definition judge_relock (univ : list (string * list cand)) (res : list (string *
 (* the resolver MODEL (Model/Resolver.v, the one c09_fixpoint_resolver_partial is about) on what the
    implementation was asked when a per-architecture lock was resolved again: that architecture's universe,
    no cross-architecture disqualification (a single-architecture configuration), the lock list as world.
-   Compared as sets of (name, version), or error with error.  synthrepo packages: origin = name,
+   Compared as ORDERED lists of (name, version) — the model is a function of its inputs, the
+   implementation's install order must be the model's —, or error with error.  synthrepo packages: origin = name,
    provider priority 0, no install_if; the tagged repository is the second index. *)
 Definition rpkg_of_cand (k : cand) : Resolver.pkg :=
   {| Resolver.p_name := k_name k; Resolver.p_version := k_version k; Resolver.p_origin := k_name k;
@@ -228,7 +229,7 @@ Definition rpkg_of_cand (k : cand) : Resolver.pkg :=
 Definition model_relock (U : list cand) (L : list string) : option (option (list (string * string))) :=
   let RU := List.filter (fun p => String.eqb (Resolver.p_pin p) "") (List.map rpkg_of_cand U) ++
             List.filter (fun p => negb (String.eqb (Resolver.p_pin p) "")) (List.map rpkg_of_cand U) in
-  match Resolver.resolve RU L [] [] with
+  match Resolver.resolve RU L [] with
   | Ok l => Some (Some (List.map (fun j => let p := nth j RU Resolver.dummy_pkg in (Resolver.p_name p, Resolver.p_version p)) l))
   | Err => Some None
   | Panic | OutOfFuel => None
@@ -241,7 +242,9 @@ Definition check_relock_model (univ : list (string * list cand)) (locks : bymap)
     | None => []
     | Some U =>
         match model_relock U (pget arch locks), r with
-        | Some (Some m), Some l => tag_if (negb (same_members_b m l)) "mismatch:relock-resolver-model-differs"
+        | Some (Some m), Some l =>
+            if negb (same_members_b m l) then ["mismatch:relock-resolver-model-differs"]
+            else tag_if (negb (list_eqb nv_eqb m l)) "mismatch:relock-resolver-model-differs/order"
         | Some None, None => []
         | Some None, Some _ => ["mismatch:relock-model-error-impl-ok"]
         | Some (Some _), None => ["mismatch:relock-model-ok-impl-error"]
